@@ -4,15 +4,18 @@
 //!   store = fs | mem ;  dir = directory for the fs store (created and removed by the check)
 //!   ops:  E<i>:I<k>:<n><R|D>   entry(id i); if vacant insert key k; if occupied do n `get`s, then `remove` (R) or drop (D)
 //!         E<i>:D:<n><R|D>      same, but a vacant entry is dropped without insert
+//!         E<i>:F<k>:<n><R|D>   same, but the key inserted into a vacant entry FAILS to serialise after emitting
+//!                              its first field (`insert` returns an error, the entry is dropped)
+//!         X<i>:<k>             store.try_insert(id i, failing key k)
 //!         G<i>                 store.get(id i)
 //!         T<i>:<k>             store.try_insert(id i, key k)
 //!         R<i>                 store.remove(id i)
 //!         O                    reopen the store on the same directory (fs) / clone the store (mem)
 //! Output: one token per op, separated by spaces:
-//!   V1 / V0 / Ve  vacant: inserted / dropped / insert failed
+//!   V1 / V0 / Vf  vacant: inserted / dropped / insert returned an error
 //!   U[g..]:r      occupied: g = per-get result (`k<key>` or `e`), r = `-` (dropped), `k<key>` or `e` (remove)
 //!   g- / gk<key> / ge      get: none / key / error
-//!   t1 / tx / te           try_insert: ok / AlreadyExists / other error
+//!   t1 / tx / tf           try_insert: ok / AlreadyExists / other error
 //!   r- / rk<key> / re      remove: none / key / error
 //!   o / oe                 reopen
 //!   Ee                     entry() itself failed
@@ -27,10 +30,25 @@ use aranya_crypto::{
 };
 use hx_crypto::{guarded, quiet_panics};
 
-#[derive(Clone, Debug, PartialEq, Eq, serde::Serialize, serde::Deserialize)]
+#[derive(Clone, Debug, PartialEq, Eq, serde::Deserialize)]
 struct TKey {
     v: u64,
     pad: Vec<u8>,
+    /// serialisation fails after the first field has been written
+    #[serde(skip)]
+    fail: bool,
+}
+impl serde::Serialize for TKey {
+    fn serialize<S: serde::Serializer>(&self, s: S) -> Result<S::Ok, S::Error> {
+        use serde::ser::{Error as _, SerializeStruct as _};
+        let mut st = s.serialize_struct("TKey", 2)?;
+        st.serialize_field("v", &self.v)?;
+        if self.fail {
+            return Err(S::Error::custom("injected serialisation failure"));
+        }
+        st.serialize_field("pad", &self.pad)?;
+        st.end()
+    }
 }
 impl WrappedKey for TKey {}
 impl Identified for TKey {
@@ -47,7 +65,10 @@ fn bid(i: u64) -> BaseId {
     BaseId::from_bytes(b)
 }
 fn key(k: u64) -> TKey {
-    TKey { v: k, pad: vec![k as u8; (k % 5) as usize] }
+    TKey { v: k, pad: vec![k as u8; (k % 5) as usize], fail: false }
+}
+fn failing_key(k: u64) -> TKey {
+    TKey { fail: true, ..key(k) }
 }
 fn kshow(k: &TKey) -> String {
     if *k == key(k.v) { format!("k{}", k.v) } else { "k?".to_string() }
@@ -68,9 +89,12 @@ fn run_ops<S: KeyStore>(store: &mut S, ops: &[&str], reopen: &mut dyn FnMut(&mut
                         if f[1] == "D" {
                             drop(v);
                             "V0".to_string()
+                        } else if f[1].starts_with('F') {
+                            let k: u64 = f[1][1..].parse().unwrap();
+                            match v.insert(failing_key(k)) { Ok(()) => "V1".to_string(), Err(_) => "Vf".to_string() }
                         } else {
                             let k: u64 = f[1][1..].parse().unwrap();
-                            match v.insert(key(k)) { Ok(()) => "V1".to_string(), Err(_) => "Ve".to_string() }
+                            match v.insert(key(k)) { Ok(()) => "V1".to_string(), Err(_) => "Vf".to_string() }
                         }
                     }
                     Ok(Entry::Occupied(o)) => {
@@ -99,6 +123,15 @@ fn run_ops<S: KeyStore>(store: &mut S, ops: &[&str], reopen: &mut dyn FnMut(&mut
                     Ok(()) => "t1".to_string(),
                     Err(e) if e.kind() == ErrorKind::AlreadyExists => "tx".to_string(),
                     Err(_) => "te".to_string(),
+                }
+            }
+            b'X' => {
+                let f: Vec<&str> = op[1..].split(':').collect();
+                let (i, k): (u64, u64) = (f[0].parse().unwrap(), f[1].parse().unwrap());
+                match store.try_insert(bid(i), failing_key(k)) {
+                    Ok(()) => "t1".to_string(),
+                    Err(e) if e.kind() == ErrorKind::AlreadyExists => "tx".to_string(),
+                    Err(_) => "tf".to_string(),
                 }
             }
             b'R' => {
